@@ -20,7 +20,7 @@ use crate::report::{Acc, Check, Tier};
 use crate::util;
 use crate::world::{self, Artifacts, Verdict};
 
-pub const VARIATIONS: [&str; 13] = [
+pub const VARIATIONS: [&str; 21] = [
     "none",
     "materials:path",
     "materials:digest-byte",
@@ -28,12 +28,20 @@ pub const VARIATIONS: [&str; 13] = [
     "materials:extra-entry",
     "materials:missing-entry",
     "materials:second-algorithm-added",
+    "materials:extra-entry-first",
+    "materials:missing-first-entry",
+    "materials:empty",
+    "materials:digest-first-byte",
     "products:path",
     "products:digest-byte",
     "products:algorithm",
     "products:extra-entry",
     "products:missing-entry",
     "products:second-algorithm-added",
+    "products:extra-entry-first",
+    "products:missing-first-entry",
+    "products:empty",
+    "products:digest-first-byte",
 ];
 
 fn base_arts() -> Artifacts {
@@ -63,6 +71,20 @@ fn vary(arts: &mut Artifacts, what: &str) {
         }
         "extra-entry" => {
             arts.insert(world::vpath("zz"), world::desc(9));
+        }
+        "extra-entry-first" => {
+            arts.insert(world::vpath("!first"), world::desc(9));
+        }
+        "missing-first-entry" => {
+            arts.remove(&world::vpath("a"));
+        }
+        "empty" => arts.clear(),
+        "digest-first-byte" => {
+            let mut bytes = world::h(1);
+            bytes[0] ^= 0x80;
+            let mut d = world::desc(1);
+            d.insert(HashAlgorithm::Sha256, HashValue::new(bytes));
+            arts.insert(world::vpath("a"), d);
         }
         "missing-entry" => {
             arts.remove(&world::vpath("d/b"));
@@ -170,7 +192,7 @@ pub fn run(tier: Tier) -> i32 {
     // pre-sign every (functionary, variation)
     let texts: Vec<Vec<String>> = f.iter().map(|k| (0..VARIATIONS.len()).map(|v| world::block_text(&world::sign_link(link_for(v), &[k]))).collect()).collect();
     let extra_texts = [
-        world::block_text(&world::sign_link(link_for(8), &[keys::get("ed5")])),
+        world::block_text(&world::sign_link(link_for(12), &[keys::get("ed5")])),
         {
             let mut v = world::block_value(&world::sign_link(link_for(0), &[f[3]]));
             v["signed"]["products"]["a"]["sha256"] = json!(util::hex(&world::h(99)));
@@ -274,7 +296,7 @@ pub fn run(tier: Tier) -> i32 {
         acc.merge(Acc::merge_all(accs.into_iter().map(|(a, _)| a).collect()));
     }
     c.acc = acc;
-    c.rule = "state = vector of per-link variations (13 kinds: none; in materials or products: other path, one digest byte, other algorithm, second algorithm added, extra entry, missing entry) for k authorised valid links, optionally plus a dissenting link by a key outside the key table or a tampered one; transition = change one link's variation; every state runs in_toto_verify for thresholds 2..min(k,3) under every permutation of the reference-link choice (site C); non-trivial = vectors that are not all equal".into();
+    c.rule = "state = vector of per-link variations (21 kinds: none; in materials or products: other path, last / first digest byte, other algorithm, second algorithm added, extra entry sorting last / first, missing last / first entry, empty map) for k authorised valid links, optionally plus a dissenting link by a key outside the key table or a tampered one; transition = change one link's variation; every state runs in_toto_verify for thresholds 2..min(k,3) under every permutation of the reference-link choice (site C); non-trivial = vectors that are not all equal".into();
     c.bound_completed = format!("complete variation vectors for {} (BFS reaches every vector)", bounds.join(", "));
     c.assume("all k links are validly signed by authorised keys of the key table; no rules (isolates C03)");
     c.finish()
@@ -286,7 +308,7 @@ pub fn replay(case: &Value) -> Value {
     let st = State { vars, extra: case["extra"].as_u64().unwrap_or(0) as u8 };
     let t = case["threshold"].as_u64().unwrap_or(2) as u32;
     let texts: Vec<Vec<String>> = f.iter().map(|k| (0..VARIATIONS.len()).map(|v| world::block_text(&world::sign_link(link_for(v), &[k]))).collect()).collect();
-    let extra_texts = [world::block_text(&world::sign_link(link_for(8), &[keys::get("ed5")])), "{}".to_string()];
+    let extra_texts = [world::block_text(&world::sign_link(link_for(12), &[keys::get("ed5")])), "{}".to_string()];
     let dir = util::fresh_dir("c07r");
     populate(&dir, &st, &texts, &extra_texts);
     let runs = run_all_orders(&dir, &layout(st.vars.len(), t), &mut Acc::new());
